@@ -1034,3 +1034,98 @@ Example C02_quit_all_nonvacuous :
   snd (fst (fst (ec_quit_n CX false WOwn [Some g; Some fw; Some nbuf_new] []))) = true /\
   snd (fst (fst (ec_quit_n CXa false WOwn [Some g; Some f; None] [true; false]))) = false.
 Proof. vm_compute. repeat split. Qed.
+
+(* ================================================================================================================== *)
+(* Round i/j, translation tie: the `a` forms of ec_quit (xa, xa!) on the translated C text (coq/TrQuitAll.v, continuing TrQuit.v) *)
+From NV Require TrQuitAll.
+Section C02_translated_quit_all.
+Import CLite CLiteProps GenCFuncs CLiteTac CLiteExt TrLbufBase TrLbuf TrBufs TrQuit TrQuitAll.
+Local Open Scope Z_scope.
+
+(* for EVERY table, whatever the save of each occupied slot answers (sv i: NULL or a message; the lbuf_save oracle reads the buffer and
+   writes a file, it leaves the memory): after the write part, the 16 slots are visited in order and EVERY occupied one is handed to
+   lbuf_save with (lb, 0, -1, path, !!strchr(cmd, '!'), mtime) -- save_args; also a slot whose path is the empty string: the C text has no
+   test of the path --; qa = the first occupied slot whose save answered a message.  None: xquit = 1 is stored, 0 returned.  Slot j:
+   bufs_switch(j), ex_show(the message), 0 returned, xquit NOT stored (the memory is exactly what bufs_switch and ex_show left). *)
+Theorem C02_tr_ec_quit_all : forall ext m mw t cb cmd loc arg txt q0 ka sv d fuel, str_at m cb cmd -> Bytes.nonul cmd -> ptr_val arg ->
+  write_part ext cb cmd arg m 0 mw ->
+  tab_at mw t -> tab_ok t -> lbs_ok t -> cell_at mw G_xquit q0 -> str_at mw cb cmd ->
+  find_byte 97 cmd = Some ka -> (16 < fuel)%nat ->
+  (forall i, (i < 16)%nat -> is_null (cs_lb (nths t i)) = false ->
+     ext X_lbuf_save (save_args t cmd i) mw = Ok (sv i, mw) /\ ptr_val (sv i)) ->
+  (forall i, (i < 16)%nat -> is_null (cs_lb (nths t i)) = false -> exists pb po, cs_path (nths t i) = VPtr pb po) ->
+  match qa t sv 16 0 with
+  | None => callx ext cprog fuel (S (S (S (S d)))) F_ec_quit [loc; VPtr cb 0; arg; txt] m = Ok (VInt 0, upd mw G_xquit [VInt 1])
+  | Some j => forall u2 m2 u1 m', callx ext cprog fuel (S (S (S d))) F_bufs_switch [VInt (Z.of_nat j)] mw = Ok (u2, m2) ->
+      ext X_ex_show [sv j] m2 = Ok (u1, m') ->
+      callx ext cprog fuel (S (S (S (S d)))) F_ec_quit [loc; VPtr cb 0; arg; txt] m = Ok (VInt 0, m')
+  end.
+Proof. exact tr_ec_quit_all. Qed.
+Print Assumptions C02_tr_ec_quit_all.
+
+(* what qa says: it is None exactly when the save of EVERY occupied slot answered NULL -- no slot is exempt --; the slot it names is
+   occupied, its save answered a message and every occupied slot in front of it was saved *)
+Theorem C02_tr_quit_all_none : forall t sv, qa t sv 16 0 = None <->
+  (forall k, (k < 16)%nat -> is_null (cs_lb (nths t k)) = false -> is_null (sv k) = true).
+Proof. exact qa_none16. Qed.
+Print Assumptions C02_tr_quit_all_none.
+Theorem C02_tr_quit_all_some : forall t sv j, qa t sv 16 0 = Some j ->
+  (j < 16)%nat /\ is_null (cs_lb (nths t j)) = false /\ is_null (sv j) = false /\
+  (forall k, (k < j)%nat -> is_null (cs_lb (nths t k)) = false -> is_null (sv k) = true).
+Proof. exact qa_some16. Qed.
+Print Assumptions C02_tr_quit_all_some.
+(* so: ONE occupied slot whose save answers a message -- the slot of the buffer without a name, whose empty path cannot be created -- and
+   xquit is not stored, whatever the other slots hold and whatever their saves answer *)
+Theorem C02_tr_quit_all_refused : forall t sv k, (k < 16)%nat -> is_null (cs_lb (nths t k)) = false -> is_null (sv k) = false ->
+  exists j, qa t sv 16 0 = Some j /\ (j <= k)%nat.
+Proof. exact tr_ec_quit_all_refused. Qed.
+Print Assumptions C02_tr_quit_all_refused.
+
+(* not vacuous, and the translated ec_quit RUNS on "xa".  The table of C02_tr_quit_nonvacuous (three buffers a b c, structs in the blocks
+   behind the globals), the path of the third one is the EMPTY string in `mem_of true`, "c" in `mem_of false`.  The oracle: ec_write answers
+   0, ex_show / reg_put leave the memory, lbuf_save answers a message (block B+7) exactly when the path it is given is the empty string,
+   NULL otherwise.  RUN with the unnamed buffer: 0 returned, xquit stays 0, the table is rotated (slot 0 is now c's struct): refused although
+   no buffer is modified.  RUN with all three named: xquit = 1.  qa says slot 2 resp. None for these answers. *)
+Example C02_tr_quit_all_nonvacuous :
+  let B0 := length cglobals in
+  let empty_path (m : mem) (v : val) : bool :=
+    match v with VPtr pb _ => match nth_error m pb with Some (VInt 0 :: _) => true | _ => false end | _ => false end in
+  let ext1 : nat -> list val -> mem -> res (val * mem) :=
+    fun f args m =>
+      if Nat.eqb f X_ex_show || Nat.eqb f X_reg_put then Ok (VUndef, m)
+      else if Nat.eqb f X_ec_write then Ok (VInt 0, m)
+      else if Nat.eqb f X_lbuf_save then Ok ((if empty_path m (nth 3 args VUndef) then VPtr (B0 + 7)%nat 0 else VInt 0), m)
+      else Err EShape in
+  let sblk : block := repeat (VInt (-1)) 32%nat ++ repeat (VInt 0) 32%nat ++
+    [VInt 0; VInt 0; VInt 0; VInt 0; VInt 5; VInt 0; VInt 0; VInt 0; VInt 0; VInt 2; VInt 2] in
+  let cslot_k (k : nat) : cslot :=
+    mkcs (repeat (VInt 0) 32%nat) (VPtr (B0 + 3 + k)%nat 0) (VPtr (B0 + k)%nat 0) (Z.of_nat k) 0 0 0 (Z.of_nat k + 1) 1 0 in
+  let T0 : list cslot := [cslot_k 0%nat; cslot_k 1%nat; cslot_k 2%nat] ++ repeat cs_zero 13%nat in
+  let mem_of (unnamed : bool) : mem := upd cglobals G_bufs (tab_cells T0) ++
+    [sblk; sblk; sblk; cstr_block [97]; cstr_block [98]; cstr_block (if unnamed then [] else [99]); cstr_block [120; 97]; cstr_block [101]] in
+  let sv (unnamed : bool) (i : nat) : val := if unnamed && Nat.eqb i 2 then VPtr (B0 + 7)%nat 0 else VInt 0 in
+  let run unnamed := callx ext1 cprog 20%nat 6%nat F_ec_quit [VInt 0; VPtr (B0 + 6)%nat 0; VPtr G_lit__0 0; VInt 0] (mem_of unnamed) in
+  let cell (m : mem) (b i : nat) := match nth_error m b with Some blk => nth_error blk i | None => None end in
+  let lbs (m : mem) := map (fun k => cell m G_bufs (41 * k + 33)%nat) [0; 1; 2; 3]%nat in
+  tab_at (mem_of true) T0 /\ tab_ok T0 /\ lbs_ok T0 /\
+  qa T0 (sv true) 16 0 = Some 2%nat /\ qa T0 (sv false) 16 0 = None /\
+  map (fun i => ext1 X_lbuf_save (save_args T0 [120; 97]%N i) (mem_of true)) [0; 1; 2]%nat = map (fun i => Ok (sv true i, mem_of true)) [0; 1; 2]%nat /\
+  match run true with
+  | Ok (v, m') => v = VInt 0 /\ nth_error m' G_xquit = Some [VInt 0] /\
+                  lbs m' = [Some (VPtr (B0 + 2)%nat 0); Some (VPtr B0 0); Some (VPtr (B0 + 1)%nat 0); Some (VInt 0)]
+  | Err _ => False
+  end /\
+  match run false with
+  | Ok (v, m') => v = VInt 0 /\ nth_error m' G_xquit = Some [VInt 1] /\
+                  lbs m' = [Some (VPtr B0 0); Some (VPtr (B0 + 1)%nat 0); Some (VPtr (B0 + 2)%nat 0); Some (VInt 0)]
+  | Err _ => False
+  end.
+Proof.
+  cbv zeta. set (B0 := length cglobals). vm_compute in B0. subst B0.
+  split; [reflexivity|]. split; [split; [reflexivity|repeat constructor]|].
+  split; [unfold lbs_ok; repeat (apply Forall_cons; [first [left; reflexivity | right; eexists; eexists; reflexivity]|]); apply Forall_nil|].
+  split; [vm_compute; reflexivity|]. split; [vm_compute; reflexivity|].
+  split; [vm_compute; reflexivity|].
+  vm_compute. repeat split.
+Qed.
+End C02_translated_quit_all.
